@@ -85,6 +85,14 @@ fn check6(ctx: &mut Ctx, bytes: &[u8], hint: Option<bool>, origin: &str) -> Outc
                                 }
                                 nchunks += 1;
                                 guard += 1;
+                                if guard <= 6 {
+                                    // the partly consumed iterator is still a well-behaved (exact-size) iterator
+                                    let l = it.len();
+                                    let rest: Vec<_> = it.clone().collect();
+                                    if rest.len() != l || rest.iter().any(|c| !inside(c.data, payload)) {
+                                        ok.set(false);
+                                    }
+                                }
                                 if guard > 5000 {
                                     ok.set(false);
                                     break;
@@ -190,6 +198,14 @@ fn check7(ctx: &mut Ctx, bytes: &[u8], origin: &str) -> Outcome {
                                 }
                                 nchunks += 1;
                                 guard += 1;
+                                if guard <= 6 {
+                                    // the partly consumed iterator is still a well-behaved (exact-size) iterator
+                                    let l = it.len();
+                                    let rest: Vec<_> = it.clone().collect();
+                                    if rest.len() != l || rest.iter().any(|c| !inside(c.data, payload)) {
+                                        ok.set(false);
+                                    }
+                                }
                                 if guard > 5000 {
                                     ok.set(false);
                                     break;
